@@ -287,3 +287,40 @@ def run_inplace_own(p: Project, clause: str, modules, floor: int, exempt: dict |
                         if bad:
                             rr.add(finding("ALIAS", m, n, f"`{norm(n, 60)}` makes `self.{attr}` {bad}, but {short(em)}() changes `self.{attr}` in place (`{norm(en, 50)}`): the change shows through in the object the value came from - a wrapped, typically cached, canvas gains or loses a cursor / pop-up", construct=f"self.{attr} shares a foreign object that is edited in place"))
     return rr
+
+
+def run_shallow_copy(p: Project, clause: str, modules, floor: int) -> RuleResult:
+    """`copy.copy(obj)` duplicates the object but shares every container it holds.  When the copy is meant to freeze a
+    state (TermCanvas.save_cursor keeps copy.copy(self.charset) for DECRC), the class of `obj` must never change a
+    container attribute *in place* - the frozen copy would change with it.  For every copy.copy(self.<a>) in the given
+    modules whose attribute class is known (assigned from a constructor call), no method of that class makes an
+    item store / delete or a mutating call on one of its own attributes (before fix 43a10ab TermCharset.define did
+    `self._g[g] = charset`: a designation made after ESC 7 survived ESC 8)."""
+    rr = RuleResult("ALIAS", clause, "a class whose instances are frozen with copy.copy() never edits one of its container attributes in place", floor=floor)
+    for fi in p.functions.values():
+        if not any(fi.module.name == m or fi.module.name.startswith(m + ".") for m in modules) or fi.cls is None or not fi.self_name:
+            continue
+        for c in fi.own_nodes():
+            if not (isinstance(c, ast.Call) and isinstance(c.func, ast.Attribute) and c.func.attr == "copy" and isinstance(c.func.value, ast.Name) and c.func.value.id == "copy" and len(c.args) == 1):
+                continue
+            a = _self_attr(c.args[0], fi.self_name)
+            if not a:
+                continue
+            for cls in sorted(p.attr_types(fi.cls).get(a, ()), key=lambda k: k.qualname):
+                edits = []
+                for m in cls.methods.values():
+                    sn = m.self_name
+                    if not sn or m.name == "__init__":
+                        continue
+                    for n in m.own_nodes():
+                        if isinstance(n, ast.Subscript) and not isinstance(n.ctx, ast.Load) and _self_attr(n.value, sn):
+                            edits.append((m, n))
+                        elif isinstance(n, ast.Call) and isinstance(n.func, ast.Attribute) and n.func.attr in INPLACE and _self_attr(n.func.value, sn):
+                            edits.append((m, n))
+                        elif isinstance(n, ast.AugAssign) and isinstance(n.target, ast.Subscript) and _self_attr(n.target.value, sn):
+                            edits.append((m, n))
+                ident = f"{short(fi)}: {norm(c, 40)} -> {cls.name}"
+                rr.inst(ident, True, {"copy": f"{short(fi)}: {norm(c, 50)}", "class": cls.name, "in_place_edits": [f"{short(m)}: {norm(n, 40)}" for m, n in edits]})
+                for m, n in edits[:1]:
+                    rr.add(finding("ALIAS", m, n, f"`{norm(n, 50)}` changes a container of {cls.name} in place, but {short(fi)}() freezes a {cls.name} with `{norm(c, 40)}` - a shallow copy that shares this container: the saved state changes together with the live one (DECSC / DECRC does not bring back the character set designations)", construct=f"{cls.name}: container edited in place although instances are shallow-copied"))
+    return rr
